@@ -182,6 +182,72 @@ def walk2Oracle (a : W2Args) (out : List String) : String :=
       | c :: _ => s!"fail entered-cell-never-tested cell={c.2} (of {due.length} due, {tr.length} tested)"
   | _ => "fail unparsable-output"
 
+/-! ### `hfbest2` / `hfbest3`: the height-field casts run with SCRIPTED part-cast answers
+args: the `hfwalk2` / `hfwalk3` args followed by `ns (0 | 1 toi)*ns` — the k-th call of the dispatcher answers the k-th entry
+(`None` beyond the end of the script); out: `none calls` | `some toi k calls` (`k` = index of the call whose hit was returned).
+Model: the trace of the walk gives the number of calls (one per traced segment in 2-D, two per traced cell in 3-D), `bestOf`
+over the scripted answers in call order gives the result. -/
+
+def pscript : P (List (Option Float)) := plist (do
+  let k ← pnat
+  if k = 0 then pure none else do let t ← pf; pure (some t))
+
+def bestModel (calls : Nat) (script : List (Option Float)) : String :=
+  let arr := script.toArray
+  let hits : List (Option (Float × Nat)) := (List.range calls).map fun k => (arr[k]?.join).map fun t => (t, k)
+  match HW2.bestOf (K := Float) (fun x : Float × Nat => x.1) hits with
+  | none => s!"none {calls}"
+  | some (t, k) => s!"some {ff t} {k} {calls}"
+
+def best2Model (a : W2Args) (script : List (Option Float)) : String :=
+  let h : HF2 Float := ⟨a.hs.length - 1, a.sc, a.rem⟩
+  let b := loosened2 (cuboidAabb2 a.he a.m) a.tg
+  match HW2.walk quantF h b a.v a.mx (h.n + 2) with
+  | none => "fuel-exhausted"
+  | some out => bestModel out.length script
+
+def best3Model (a : WArgs) (script : List (Option Float)) : String :=
+  let h : HF3 Float := ⟨a.ni, a.nj, a.sc, hfAabb a.hmin a.hmax a.sc⟩
+  let b := (cuboidAabb a.he a.m).loosened a.tg
+  match walk quantF false h b a.v a.mx 100000 with
+  | .noBoxHit => bestModel 0 script
+  | .done out => bestModel (2 * out.length) script
+  | .fuelExhausted _ => "fuel-exhausted"
+  | .signumOfZero _ => "signum-of-zero"
+
+/-- exact oracle, independent of the walk: among the scripted answers of the calls the implementation reports having made, the
+usable hits are those with a finite time below `Real::MAX`; `none` is due iff there is none, otherwise the returned hit must be
+entry `k` of the script, usable, of minimal time, and the FIRST entry with that time. -/
+def bestOracle (script : List (Option Float)) (out : List String) : String :=
+  let big : Rat := (2 : Rat) ^ 1024 - (2 : Rat) ^ 971
+  let usable (c : Nat) : List (Rat × Nat) := (List.range c).filterMap fun k =>
+    match (script.toArray[k]?).join with
+    | some t => if FloatIO.isFinite t ∧ q t < big then some (q t, k) else none
+    | none => none
+  match out with
+  | "panic" :: _ => "fail panic"
+  | ["none", c] =>
+    (match c.toNat? with
+     | none => "fail unparsable-output"
+     | some c => match usable c with
+       | [] => "pass"
+       | (_, k) :: _ => s!"fail none-but-call-{k}-answered-a-hit")
+  | ["some", t, k, c] =>
+    (match FloatIO.ofHex? t, k.toNat?, c.toNat? with
+     | some tf, some k, some c =>
+       if k ≥ c then "fail returned-call-index-beyond-calls" else
+       match (script.toArray[k]?).join with
+       | none => "fail returned-hit-was-not-scripted"
+       | some ts =>
+         if !(FloatIO.isFinite tf) then "fail nonfinite-toi" else
+         if !(FloatIO.isFinite ts) ∨ q ts ≠ q tf then "fail toi-differs-from-the-scripted-answer" else
+         if !(q tf < big) then "fail hit-at-real-max-kept" else
+         match (usable c).filter (fun x => x.1 < q tf ∨ (x.1 = q tf ∧ x.2 < k)) with
+         | [] => "pass"
+         | (_, k') :: _ => s!"fail call-{k'}-has-an-earlier-or-equal-first-hit"
+     | _, _, _ => "fail unparsable-output")
+  | _ => "fail unparsable-output"
+
 /-! ### `smsm3` / `smsm2`: the exit conditions of the GJK-route cast
 args: `<iso pos12> <vel12> <opts> velnorm <cTarget> <ddPlain> <ddRound> <cMax> shapes <shape1> <shape2>`
 (`0` | `1 p1 p2 n1 n2 dist` for a contact, `0` | `1 toi n w1 w2` for `directional_distance`); out: `none` | `some <hit>` -/
@@ -283,6 +349,16 @@ def handlerW (fn : String) : Option Handler :=
       model := fun a => (run pwargs a).map walkModel
       oracle := fun a out => match run pwargs a with
         | some w => walkOracle w out
+        | none => "skip bad-args" }
+  | "hfbest2" => some {
+      model := fun a => (run (do let w ← pw2args; let sc ← pscript; pure (w, sc)) a).map fun x => best2Model x.1 x.2
+      oracle := fun a out => match run (do let w ← pw2args; let sc ← pscript; pure (w, sc)) a with
+        | some x => bestOracle x.2 out
+        | none => "skip bad-args" }
+  | "hfbest3" => some {
+      model := fun a => (run (do let w ← pwargs; let sc ← pscript; pure (w, sc)) a).map fun x => best3Model x.1 x.2
+      oracle := fun a out => match run (do let w ← pwargs; let sc ← pscript; pure (w, sc)) a with
+        | some x => bestOracle x.2 out
         | none => "skip bad-args" }
   | "hfwalk2" => some {
       model := fun a => (run pw2args a).map walk2Model
